@@ -1,18 +1,85 @@
-import Proofs.Lemmas.ForkChoiceClosest
+import Proofs.Lemmas.ForkChoiceUnknown
+import Proofs.Lemmas.ForkChoiceInv
+import Zrnt.ForkChoice.Spec
 /-!
 # C11 — graph queries agree with the inserted tree
 
-Statements about the code-shaped model `Zrnt.ForkChoice` (tie H: modes `fc09`/`fc10`/`fc11`).
+Statements about the code-shaped model `Zrnt.ForkChoice` (tie H: modes `fc09`/`fc10`/`fc11`). `WF` is the
+structure invariant (proved for every history while nothing is pruned: `C09.inv_structure`), `Chain` the
+block/empty-slot chain structure of the inserted tree (`Proofs/Lemmas/ForkChoiceChain.lean`: preserved by
+`NewProtoArray`, `ProcessSlot` on a known root at or after its first slot, `ProcessBlock`, and by everything that
+only touches weights and links).
 -/
 namespace Zrnt.Proofs.C11
 open Zrnt.ForkChoice
 
-/-- `ClosestToSlot`'s binary search returns what a linear scan returns, whenever the empty-slot nodes of a
-root are contiguous from its first known slot and every root in `blockSlots` has its node. -/
-theorem closestToSlot_eq_linear (pr : PA) (hc : Contig pr)
-    (hbs : ∀ root s, aGet pr.blockSlots root = some s → (aGet pr.indices ⟨s, root⟩).isSome)
-    (anchor : Root) (slot : Nat) :
+def rt (n : Nat) : Root := n * 256 ^ 31
+def aa (k : Nat) : Root := 0xaa * 256 ^ 31 + k
+
+/-- `inSubtree_eq_descendant`: on the first nodes of two roots, the index-level `inSubtree` (index ordering +
+best-descendant shortcut + transition-parent walk) is exactly fork-choice ancestry of the inserted tree. Without
+the `!= NONE` guards (the code before commit 58371ad) this is false: two sibling leaves compared as in-subtree. -/
+theorem inSubtreeIdx_eq_descendant (pr : PA) (h : WF pr) (hc : Chain pr) (ra rl : Root) (sa sl a l : Nat)
+    (ha : aGet pr.blockSlots ra = some sa) (ia : aGet pr.indices ⟨sa, ra⟩ = some a)
+    (hl : aGet pr.blockSlots rl = some sl) (il : aGet pr.indices ⟨sl, rl⟩ = some l) :
+    pr.inSubtreeIdx a l = some (false, anc pr.nodes a l) :=
+  inSubtreeIdx_eq_anc pr h hc ra rl sa sl a l ha ia hl il
+
+/-- `InSubtree` on roots: unknown iff one of the roots has no node; otherwise fork-choice ancestry between the
+first nodes of the two roots (= block-tree descent). -/
+theorem inSubtree_eq_descendant (pr : PA) (h : WF pr) (hc : Chain pr) (hu : pr.updated = true) (ra rl : Root) :
+    pr.inSubtree ra rl = .ok pr
+      (match (aGet pr.blockSlots ra).bind (fun s => aGet pr.indices ⟨s, ra⟩),
+             (aGet pr.blockSlots rl).bind (fun s => aGet pr.indices ⟨s, rl⟩) with
+       | some a, some l => (false, anc pr.nodes a l)
+       | _, _ => (true, false)) :=
+  inSubtree_eq_anc pr h hc hu ra rl
+
+/-- non-vacuity (`chainEx`: anchor 1@0 with the fork 2@1 / 3@2): siblings are not in each other's subtree, the
+anchor contains both -/
+example : WF chainEx ∧ Chain chainEx ∧ chainEx.inSubtreeIdx 2 4 = some (false, false) ∧
+    chainEx.inSubtreeIdx 0 4 = some (false, true) := ⟨chainEx_ok.1, chainEx_ok.2, by decide, by decide⟩
+
+/-- `closestToSlot_eq_linear`: the binary search of `ClosestToSlot` returns what a linear scan returns (the
+empty-slot nodes of a root are contiguous from its first slot, which follows from the chain structure). -/
+theorem closestToSlot_eq_linear (pr : PA) (h : WF pr) (hc : Chain pr) (anchor : Root) (slot : Nat) :
     pr.closestToSlot anchor slot = closestLinear pr anchor slot :=
-  Zrnt.ForkChoice.closestToSlot_eq_linear pr hc hbs anchor slot
+  Zrnt.ForkChoice.closestToSlot_eq_linear pr (contig_of_chain h hc) h.bs_node anchor slot
+
+example : closestLinear chainEx 1 7 = some ⟨2, 1⟩ ∧ chainEx.closestToSlot 1 7 = some ⟨2, 1⟩ := by decide
+
+/-- `unknown_reported`: a root that was never inserted is reported unknown / as an error by every query. -/
+theorem unknown_reported (pr : PA) (h : WF pr) (hc : Chain pr) (r : Root) (hr : aGet pr.blockSlots r = none) :
+    pr.getSlot r = none ∧
+    (∀ x, ∃ pr', pr.inSubtree r x = .ok pr' (true, false)) ∧
+    (∀ x, ∃ pr', pr.inSubtree x r = .ok pr' (true, false)) ∧
+    (∀ s, pr.closestToSlot r s = none) ∧
+    (∀ s w, pr.canonAtSlot r s w = .err pr) ∧
+    (∀ s, isErr (pr.findHead r s) = true) ∧
+    (∀ s, isErr (pr.canonicalChain r s) = true) ∧
+    (∀ s p sl, isErr (pr.search ⟨s, r⟩ p sl) = true) :=
+  Zrnt.ForkChoice.unknown_reported pr h hc r hr
+
+example : aGet chainEx.blockSlots 9 = none := by decide
+
+/-- every query of every history returns (no panic, no endless loop) while nothing is pruned: the harness machine
+is never `dead` and the array stays well formed -/
+theorem queries_total_unpruned (ops : List Op)
+    (hu : ∀ k, k ≤ ops.length → Unpruned (run .none (ops.take k)).1) : MInv (run .none ops).1 :=
+  inv_structure ops .none trivial hu
+
+/- FULL STATEMENT (false of the current code): "before and after pruning" every query answers as the direct walk
+   of the inserted tree, `∀ ops, (run .none ops).2 = (Spec.run none ops).2` up to `any`. After a prune interrupted
+   by the sink, `Search` (through `inSubtree`'s unoffset `pr.nodes[i]`) never returns: -/
+
+def witSearchSpins : List Op := [
+  .init 2 (rt 2) 0 (rt 0xfe) ⟨0, rt 2⟩ ⟨0, rt 2⟩ (.failAt 1) [33, 0],
+  .block (rt 2) (aa 1) 2 0 0, .block (rt 2) (rt 0xfe) 2 1 1, .block (rt 0xfe) (rt 0x80) 4 0 0,
+  .block (aa 1) (rt 0x10) 3 0 0, .block (rt 0x80) (rt 1) 6 0 0, .block (rt 0x10) (aa 2) 5 1 1,
+  .justify (aa 2) ⟨1, aa 1⟩ ⟨1, aa 1⟩ (some [33, 32]),
+  .search ⟨2, aa 1⟩ (some (rt 0x80)) none]
+
+/-- replayed on Go (`corpus/fc11.ops`): `blocked` (a real endless loop) -/
+theorem queries_after_prune_false : (run .none witSearchSpins).2.getLast? = some Ans.blocked := by decide +kernel
 
 end Zrnt.Proofs.C11
